@@ -359,6 +359,11 @@ pub fn step(stream: &[u8], visible: usize, hl: usize, rem: usize, c: usize, acts
             } else {
                 vassert!(!rd.pending_returned, "C05|poll.ready_after_pending|a result was produced in a poll in which the transport returned Pending");
                 vassert!(got == want, "C05|poll.step.result|result differs from one uninterrupted read of the same stream");
+                // the same obligation under the properties whose statement it also is
+                vassert!(got == want, "C15|poll.header|the poll decoder's header state machine reads the remaining-length field differently from the variable-byte-integer reference (value, number of length bytes, rejection of a fifth byte)");
+                if want == Spec::BadVarInt || want == Spec::BadRemaining || want == Spec::BadHeader {
+                    vassert!(got == want, "C20|poll.malformed_header|the poll decoder does not reject a malformed fixed header (over-long length, zero length on a packet with a body, refused control byte) with its documented error");
+                }
                 vassert!(now == used, "C05|poll.step.consumed|bytes consumed when the result is produced differ from one uninterrupted read");
                 if let Spec::Done(t, _) = got {
                     vassert!(t == now, "C05|poll.total_vs_consumed|reported total size differs from the bytes consumed");
@@ -489,59 +494,78 @@ pub fn one_shot_rem3(s: &mut Src) {
 scenarios! {
     #[kani::unwind(12)]
     #[kani::stub(<mqtt_proto_sync::Error as std::convert::From<std::io::Error>>::from, crate::model::from_io_kind_stub)]
+    #[kani::stub(<std::io::Error as std::string::ToString>::to_string, crate::model::io_to_string_stub)]
     c05_one_shot_rem3 [3] => one_shot_rem3;
     #[kani::unwind(8)]
     #[kani::stub(<mqtt_proto_sync::Error as std::convert::From<std::io::Error>>::from, crate::model::from_io_kind_stub)]
+    #[kani::stub(<std::io::Error as std::string::ToString>::to_string, crate::model::io_to_string_stub)]
     c08_clean_end [1] => clean_end;
     #[kani::unwind(12)]
     #[kani::stub(<mqtt_proto_sync::Error as std::convert::From<std::io::Error>>::from, crate::model::from_io_kind_stub)]
+    #[kani::stub(<std::io::Error as std::string::ToString>::to_string, crate::model::io_to_string_stub)]
     c05_steps_all_rem1 [1] => all_rem1;
     #[kani::unwind(12)]
     #[kani::stub(<mqtt_proto_sync::Error as std::convert::From<std::io::Error>>::from, crate::model::from_io_kind_stub)]
+    #[kani::stub(<std::io::Error as std::string::ToString>::to_string, crate::model::io_to_string_stub)]
     c05_steps_all_rem2 [2] => all_rem2;
     #[kani::unwind(12)]
     #[kani::stub(<mqtt_proto_sync::Error as std::convert::From<std::io::Error>>::from, crate::model::from_io_kind_stub)]
+    #[kani::stub(<std::io::Error as std::string::ToString>::to_string, crate::model::io_to_string_stub)]
     c05_steps_all_rem3 [3] => all_rem3;
     #[kani::unwind(12)]
     #[kani::stub(<mqtt_proto_sync::Error as std::convert::From<std::io::Error>>::from, crate::model::from_io_kind_stub)]
+    #[kani::stub(<std::io::Error as std::string::ToString>::to_string, crate::model::io_to_string_stub)]
     c05_steps_all_rem4 [4] => all_rem4;
     #[kani::unwind(12)]
     #[kani::stub(<mqtt_proto_sync::Error as std::convert::From<std::io::Error>>::from, crate::model::from_io_kind_stub)]
+    #[kani::stub(<std::io::Error as std::string::ToString>::to_string, crate::model::io_to_string_stub)]
     c05_steps_all_rem2_hl3 [2] => all_rem2_hl3;
     #[kani::unwind(12)]
     #[kani::stub(<mqtt_proto_sync::Error as std::convert::From<std::io::Error>>::from, crate::model::from_io_kind_stub)]
+    #[kani::stub(<std::io::Error as std::string::ToString>::to_string, crate::model::io_to_string_stub)]
     c05_steps_all_rem2_hl4 [2] => all_rem2_hl4;
     #[kani::unwind(12)]
     #[kani::stub(<mqtt_proto_sync::Error as std::convert::From<std::io::Error>>::from, crate::model::from_io_kind_stub)]
+    #[kani::stub(<std::io::Error as std::string::ToString>::to_string, crate::model::io_to_string_stub)]
     c05_steps_all_rem2_hl5 [2] => all_rem2_hl5;
     #[kani::unwind(12)]
     #[kani::stub(<mqtt_proto_sync::Error as std::convert::From<std::io::Error>>::from, crate::model::from_io_kind_stub)]
+    #[kani::stub(<std::io::Error as std::string::ToString>::to_string, crate::model::io_to_string_stub)]
     c05_steps_empty_hl2 [1] => empty_hl2;
     #[kani::unwind(12)]
     #[kani::stub(<mqtt_proto_sync::Error as std::convert::From<std::io::Error>>::from, crate::model::from_io_kind_stub)]
+    #[kani::stub(<std::io::Error as std::string::ToString>::to_string, crate::model::io_to_string_stub)]
     c05_steps_empty_hl3 [1] => empty_hl3;
     #[kani::unwind(12)]
     #[kani::stub(<mqtt_proto_sync::Error as std::convert::From<std::io::Error>>::from, crate::model::from_io_kind_stub)]
+    #[kani::stub(<std::io::Error as std::string::ToString>::to_string, crate::model::io_to_string_stub)]
     c05_steps_empty_hl5 [1] => empty_hl5;
     #[kani::unwind(12)]
     #[kani::stub(<mqtt_proto_sync::Error as std::convert::From<std::io::Error>>::from, crate::model::from_io_kind_stub)]
+    #[kani::stub(<std::io::Error as std::string::ToString>::to_string, crate::model::io_to_string_stub)]
     c05_steps_leftover_rem3 [3] => leftover_rem3;
     #[kani::unwind(12)]
     #[kani::stub(<mqtt_proto_sync::Error as std::convert::From<std::io::Error>>::from, crate::model::from_io_kind_stub)]
+    #[kani::stub(<std::io::Error as std::string::ToString>::to_string, crate::model::io_to_string_stub)]
     c05_steps_eoferr_rem2 [2] => eoferr_rem2;
     #[kani::unwind(12)]
     #[kani::stub(<mqtt_proto_sync::Error as std::convert::From<std::io::Error>>::from, crate::model::from_io_kind_stub)]
+    #[kani::stub(<std::io::Error as std::string::ToString>::to_string, crate::model::io_to_string_stub)]
     c05_steps_other_rem2 [2] => other_rem2;
     #[kani::unwind(12)]
     #[kani::stub(<mqtt_proto_sync::Error as std::convert::From<std::io::Error>>::from, crate::model::from_io_kind_stub)]
+    #[kani::stub(<std::io::Error as std::string::ToString>::to_string, crate::model::io_to_string_stub)]
     c05_steps_reject_hl2 [1] => reject_hl2;
     #[kani::unwind(12)]
     #[kani::stub(<mqtt_proto_sync::Error as std::convert::From<std::io::Error>>::from, crate::model::from_io_kind_stub)]
+    #[kani::stub(<std::io::Error as std::string::ToString>::to_string, crate::model::io_to_string_stub)]
     c05_steps_zero_rem [1] => zero_rem;
     #[kani::unwind(12)]
     #[kani::stub(<mqtt_proto_sync::Error as std::convert::From<std::io::Error>>::from, crate::model::from_io_kind_stub)]
+    #[kani::stub(<std::io::Error as std::string::ToString>::to_string, crate::model::io_to_string_stub)]
     c05_steps_overlong_varint [1] => overlong_varint;
     #[kani::unwind(12)]
     #[kani::stub(<mqtt_proto_sync::Error as std::convert::From<std::io::Error>>::from, crate::model::from_io_kind_stub)]
+    #[kani::stub(<std::io::Error as std::string::ToString>::to_string, crate::model::io_to_string_stub)]
     c05_steps_rem130_hl3_prefix [2] => rem130_hl3_prefix;
 }
